@@ -935,6 +935,8 @@ def glue_greenback() -> None:
 
     @elaborate_frame.register(greenback._impl._greenback_shim)
     def elaborate_greenback_shim(frame: Frame, next_inner: object) -> object:
+        # Also used for _greenback_shim_sync (see below), which has a
+        # child_greenlet but no orig_coro
         frame.hide = True
 
         if isinstance(next_inner, Frame):
@@ -960,6 +962,12 @@ def glue_greenback() -> None:
                 "Can't identify what's going on with the greenback shim in this "
                 "frame"
             )
+
+    if hasattr(greenback._impl, "_greenback_shim_sync"):  # pragma: no branch
+        # Portal created by with_portal_run_sync()
+        elaborate_frame.register(
+            greenback._impl._greenback_shim_sync, elaborate_greenback_shim
+        )
 
     @elaborate_frame.register(greenback.await_)
     def elaborate_greenback_await(frame: Frame, next_inner: object) -> object:
